@@ -56,7 +56,7 @@ def build(tier: str, props=PROPS, pid="C06") -> CheckSpec:
     if q:
         for c1n, c2n in (("table2x2", "div"), ("div", "table2x2"), ("ul", "table1"), ("table1", "ul"), ("section", "table2x2"), ("ref", "div"),
                          ("table2x2", "center"), ("center", "underline"), ("dl", "table1"), ("pre", "ul"), ("table1", "section"), ("italic", "center"),
-                         ("dl", "div"), ("spacepre", "span")):
+                         ("dl", "div"), ("spacepre", "span"), ("table-stray", "table1")):
             cubes.append(Cube(f"shape {c1n}({c2n}(L1) L2)", h_shape, {"l1": int, "l2": int},
                               {"c1": T.cidx(c1n), "c2": T.cidx(c2n), "props": props}, timeout=tmo, per_path_timeout=30, group="shape"))
     else:
@@ -89,7 +89,7 @@ def build(tier: str, props=PROPS, pid="C06") -> CheckSpec:
         functions=[treecleaner.TreeCleaner, advtree.build_advanced_tree, advtree.AdvancedNode, advtree._validate_parser_tree, advtree._validate_parents],
         bounds={"documents": "C1( C2( L1 ) L2 )" + ("" if q else " and C1(L1 L2) + blank line + L3"),
                 "containers": [c[0] for c in T.CONTAINERS], "leaves": [l[0] for l in T.LEAVES],
-                "container pairs": "every C1 with C2=none plus 14 selected pairs" if q else "all pairs",
+                "container pairs": "every C1 with C2=none plus 15 selected pairs" if q else "all pairs",
                 "sized leaves": {"thresholds harvested from the source": T.harvest_thresholds(), "leaves": [n for n, _ in T.sized_leaves()],
                                  "documents": ["%s(%s(SIZED) L2)" % p_ for p_ in sized_pairs], "L2": [T.LEAVES[i][0] for i in l2set]},
                 "attribute documents": [list(T.ATTR_SHAPES[i]) for i in shapes],
